@@ -168,10 +168,12 @@ def make_body(nmax, steps, info):
                         # the values arrive in variables that are bound at the time of the call
                         call_args = []
                         for x in args:
-                            v = yp.variable()
-                            it = iter(unify(v, x))
+                            v, w = yp.variable(), yp.variable()
+                            it0 = iter(unify(v, w))          # alias first, value afterwards: a chain of two bindings
+                            next(it0)
+                            it = iter(unify(w, x))
                             next(it)
-                            helds.append(it)
+                            helds += [it, it0]
                             call_args.append(v)
                     yp.assert_fact(yp.atom(name), call_args, opname == 'assert_fact_append')
                     for it in helds:
